@@ -53,6 +53,7 @@ def runLine (line : String) : Driver.Result :=
   | ["imp", prop, f, ty, src, ext, impl] => Driver.TypedCase.runImp prop f ty src ext impl
   | ["setcol", prop, f, ty, src, ext, impl] => Driver.TypedCase.runSetCol prop f ty src ext impl
   | ["typed", _, f, ty, src, ext, w, b1, b2] => Driver.TypedCase.runTyped f ty src ext w b1 b2
+  | ["typedl", _, f, ty, src, ext, w, b1, b2] => Driver.TypedCase.runTyped f ty src ext w b1 b2 true
   | ["twice", _, zone, ti, to, line, ext, first, second] => Driver.TypedCase.runTwice zone ti to line ext first second ""
   | ["twice", _, zone, ti, to, line, ext, first, second, hint] => Driver.TypedCase.runTwice zone ti to line ext first second hint
   | ["timert", _, zone, src, ext, s1, s2, s3, s4] => Driver.TimeCase.runCase zone src ext s1 s2 s3 s4
